@@ -290,6 +290,7 @@ void ApiRun::op_parse_into(const Op &o) {
 void ApiRun::plant_stranded_scalar(const Op &o, int ci) {
     RCif &c = cifs[(size_t) ci];
     if (c.iter >= 0) SKIP("iterator open");
+    disarm_faults();                 // this planted failure is not combined with storage faults (its set-up must succeed)
     ustr code = U("zz_scratch_block");
     if (c.model.block(mnorm(code))) SKIP("scratch code taken");
     cif_block_tp *b = NULL;
